@@ -71,10 +71,10 @@ func (f *forgeProvider) Sign(_ context.Context, _ *idp.Identity, data []byte) ([
 
 // Forgery kinds.
 const (
-	fNonWriter      = "non-writer"               // honest entry of an identity that is not in the write list
-	fCopiedID       = "copied-id"                // victim's identity id, attacker's public key and signatures
-	fBlockVictimKey = "copied-block-victim-key"  // victim's identity block, victim's key in `key`: signature cannot verify
-	fBlockOwnKey    = "copied-block-own-key"     // victim's identity block, attacker's key in `key`: signature verifies against `key`
+	fNonWriter      = "non-writer"              // honest entry of an identity that is not in the write list
+	fCopiedID       = "copied-id"               // victim's identity id, attacker's public key and signatures
+	fBlockVictimKey = "copied-block-victim-key" // victim's identity block, victim's key in `key`: signature cannot verify
+	fBlockOwnKey    = "copied-block-own-key"    // victim's identity block, attacker's key in `key`: signature verifies against `key`
 )
 
 var forgeKinds = []string{fNonWriter, fCopiedID, fBlockVictimKey, fBlockOwnKey}
